@@ -19,6 +19,20 @@ def regions(t):
     return [(a - t['ext'][0], a - 1) if t['ext'][0] else None, (a, b), (b + 1, b + t['ext'][1]) if t['ext'][1] else None]
 
 
+def first_base_indel(case: dict) -> bool:
+    return 'Invalid genomic position 0' in (case.get('msg') or '') + ' '.join(case.get('critical') or [])
+
+
+MATCHERS = {'first_base_indel': first_base_indel}
+
+
+def replay_known(ctx, k) -> bool:
+    with open(common.VERIF + '/' + k['replay']) as fh:
+        d = json.load(fh)['case']['design']
+    r = run_case(d)
+    return r['exit'] != 0 and first_base_indel(r)
+
+
 # ---------------------------------------------------------------- injectors: (design, offending targeton index | None) or None
 
 def _pick(rng, d):
@@ -389,7 +403,7 @@ def judge_valid(ctx: Ctx, d, r):
     ctx.count('valid_' + d['mode'])
     if r['exit'] != 0:
         ctx.violation('spec_violation', f"valid design refused: exit {r['exit']} {r['exc']} {r['msg'][:80]} {r['critical'][:1]}",
-                      {'surface': 'file', 'design': d, 'exc': r['exc'], 'msg': r['msg']})
+                      {'surface': 'file', 'design': d, 'exc': r['exc'], 'msg': r['msg'], 'critical': r['critical']})
     else:
         ctx.nontriv(('valid', common.sha(d)))
 
